@@ -122,6 +122,9 @@ func strAtoms() []strAtom {
 		raw("\x00", "\\0", "\\x00", "\\u0000"),
 		raw("é", "\\xe9", "\\u00E9"),
 		raw("中", "\\u4e2d", "\\u4E2D"),
+		raw("\u9fa5", "\\u9fa5", "\\u9FA5"),
+		raw("\uffe5", "\\uffe5", "\\uFFE5"),
+		raw("\u8000", "\\u8000"),
 		only("\u2028", "\\u2028"),
 		only("\u0085", "\\u0085", "\\x85"),
 		raw("\xff"),
